@@ -70,6 +70,7 @@ func cycleT1(args []string) error {
 			Zone:       zones[(i/4)%4],
 			NonDefault: i%7 < 3,
 			LongPaths:  i%11 == 5,
+			BigFrac:    i%3 == 1 && i%4 == 1,
 		}
 		if i == n-1 && n > 20 {
 			o.NGlyphs = 300
